@@ -39,6 +39,10 @@ def run(ctx):
     rbe_check(ctx, 'R13.4', impls[0], [], '', floor=None)
     for c in impls:
         rbe_check(ctx, 'R13.4', c, ['update_seed'], 'refused seed update has already changed the stream')
+    from ..statrules import shared_class_state
+    shared_class_state(ctx, 'R13.6', sorted(c for c, ci in prog.classes.items() if ci.module.name == 'streams'),
+                       'the seed a stream receives depends on what other experiments / updaters in the same process configured, not only on its name, '
+                       'original seed or configured list, and the replication number')
 
 
 def check_updater(ctx, c):
